@@ -223,6 +223,19 @@ func normalize(t *Term) *Term {
 				}
 			}
 		}
+		// boolean connectives with a literal operand
+		if t.Name == "&&" || t.Name == "||" {
+			for i := 0; i < 2; i++ {
+				lit, x := t.Args[i], t.Args[1-i]
+				if lit.Op != OpConst || (lit.Name != "true" && lit.Name != "false") {
+					continue
+				}
+				if (lit.Name == "true") == (t.Name == "&&") {
+					return x // true && x, false || x
+				}
+				return lit // false && x, true || x
+			}
+		}
 		// an address or a fresh allocation is never nil
 		if t.Name == "==" || t.Name == "!=" {
 			for i := 0; i < 2; i++ {
@@ -306,6 +319,15 @@ func normalize(t *Term) *Term {
 				return C("false")
 			}
 			if x.IsConst("false") {
+				return C("true")
+			}
+		}
+	case "implies":
+		if len(t.Args) == 2 {
+			if t.Args[0].IsConst("true") {
+				return t.Args[1]
+			}
+			if t.Args[0].IsConst("false") || t.Args[1].IsConst("true") {
 				return C("true")
 			}
 		}
